@@ -153,7 +153,7 @@ UNITS += [
 
 # repair index re-reads pack headers from the (cold) store: the warm-up of exactly these packs must come first.  The unit lives
 # in C15's spec (it also decides the dry-run half of that function) and is verified as part of this check as well.
-SATELLITES = [("C15", ["RewriteOptions", "RepairSnapshotsOptions", "ConfigOptions", "TreeModifier", "repair_index_dry_run"]),
+SATELLITES = [("C15", ["RewriteOptions", "RepairSnapshotsOptions", "ConfigOptions", "TreeModifier", "ModifierChange", "repair_index_dry_run"]),
               # restore: the packs reported for warm-up (to_packs) are exactly the packs the read plan reads (units of C02's spec)
               ("C02", ["blob_constants", "BlobLocation", "BlobLocations", "from_blob_location", "can_coalesce", "append", "coalesce", "PackToDo", "RepackReason", "PackInfo", "PrunePack", "CopyPackBlobs", "RestorePackInfo", "FileLocation", "restore_read_of_blob", "restore_needed_pack"]),
               # check's hot/cold comparisons (hot listing against cold listing, tree packs in the hot store) are units of C05's spec
